@@ -31,6 +31,10 @@ Layout == [
   fchk_iscalar |-> << F("label",1,40,"sl"), F("sp",41,43,"lit:   "), F("type",44,44,"lit:I"), F("sp2",45,49,"lit:     "), F("value",50,61,"int") >>,
   fchk_iarray  |-> << F("label",1,40,"sl"), F("sp",41,43,"lit:   "), F("type",44,44,"lit:I"), F("n",45,49,"lit:   N="), F("count",50,61,"int") >>,
   fchk_rarray  |-> << F("label",1,40,"sl"), F("sp",41,43,"lit:   "), F("type",44,44,"lit:R"), F("n",45,49,"lit:   N="), F("count",50,61,"int") >>,
+  \* Gaussian log, matrices of IOp(3/33=5): row label I7 followed by up to five D14.6 values; two-electron integral lines
+  glog_rowlabel |-> << F("row",1,7,"int") >>,
+  glog_twoel |-> << F("li",1,3,"lit: I="), F("i",4,6,"int"), F("lj",7,9,"lit: J="), F("j",10,12,"int"), F("lk",13,15,"lit: K="),
+                    F("k",16,18,"int"), F("ll",19,21,"lit: L="), F("l",22,24,"int"), F("lint",25,29,"lit: Int=") >>,
   cube_axis  |-> << F("n",1,5,"int"), F("x",6,17,"f6"), F("y",18,29,"f6"), F("z",30,41,"f6") >>,
   cube_atom  |-> << F("z",1,5,"int"), F("q",6,17,"f6"), F("x",18,29,"f6"), F("y",30,41,"f6"), F("zz",42,53,"f6") >>
 ]
@@ -65,6 +69,7 @@ Loads == [
   cube |-> << D("atnums"), L("atcoords", "au", 6), L("atcorenums", "au", 6), D("title"), L("cube.origin", "au", 6), L("cube.axes", "au", 6),
               L("cube.data", "au", 5), L("cellvecs", "au", 6) >>,
   fcidump |-> << L("one_ints.core_mo", "au", 12), L("two_ints.two_mo", "au", 12), L("core_energy", "au", 12), D("nelec"), D("spinpol") >>,
+  gaussianlog |-> << L("one_ints.olp", "au", 6), L("one_ints.kin_ao", "au", 6), L("one_ints.na_ao", "au", 6), L("two_ints.er_ao", "au", 12) >>,
   gaussianinput |-> << D("atnums"), L("atcoords", "angstrom", 8), D("title") >>,
   fchk |-> << D("atnums"), L("atcoords", "au", 8), L("atcorenums", "au", 8), L("energy", "au", 8), L("atmasses", "amu", 8),
               L("atgradient", "au", 8), L("athessian", "au", 8), L("atcharges.mulliken", "au", 8), L("moments.(1,c)", "au", 8),
